@@ -1,7 +1,7 @@
 SPECIFICATION Spec
 CONSTANTS
   Callers = {r, w, a}
-  Segs = 2
+  Segs = {1, 2}
   Limit = 2
   FlagBeforeResult = FALSE
   NoTimeout = FALSE
